@@ -171,8 +171,25 @@ func genPool(rt *rapid.T, n int) []*Spec {
 	pool = append(pool, &Spec{Name: "modes-differing-in-case-only", Fast: true, Sibling: -1, Files: map[string]string{
 		"g.lox": "@lexer\nA = 'a' @push_mode(Inner)\nB = 'b' @push_mode(INNER)\nC = 'c' @push_mode(inner)\nD = 'd' @push_mode(iNNer)\n@mode Inner {\n  E = 'e' @pop_mode\n}\n@mode INNER {\n  F = 'f' @pop_mode\n}\n@mode inner {\n  G = 'g' @pop_mode\n}\n@mode iNNer {\n  H = 'h' @pop_mode\n}\n",
 		"u.go":  strings.ReplaceAll(forge.LexStub, "package PKGNAME", "package pkg")}})
+	tokOrder := func(swap bool) *Spec {
+		names := []string{"LET", "VAR", "FUN", "RET"}
+		if swap {
+			names[0], names[1] = names[1], names[0]
+		}
+		var sb strings.Builder
+		sb.WriteString("@lexer\n@frag ' ' @discard\n")
+		for _, n := range names {
+			fmt.Fprintf(&sb, "%s = '%s'\n", n, strings.ToLower(n))
+		}
+		sb.WriteString("ID = [a-z]+\n")
+		return &Spec{Fast: true, Sibling: -1, Files: map[string]string{"g.lox": sb.String(), "u.go": strings.ReplaceAll(forge.LexStub, "package PKGNAME", "package pkg")}}
+	}
+	t1, t2 := tokOrder(false), tokOrder(true)
+	t1.Name, t2.Name = "token-order", "token-order-swapped"
+	pool = append(pool, t1, t2)
+	t1.Sibling, t2.Sibling = len(pool)-1, len(pool)-2
 	c, d := bigLexPair(rt)
-	c.Name, d.Name, c.Sibling, d.Sibling = "biglex", "biglex-swapped", 5, 4
+	c.Name, d.Name, c.Sibling, d.Sibling = "biglex", "biglex-swapped", 7, 6
 	pool = append(pool, c, d)
 	for len(pool) < n {
 		switch ri(rt, 0, 2, "kind") {
@@ -407,11 +424,18 @@ func genHistory(rt *rapid.T, pool []*Spec) []Step {
 	nSpecs := len(pool)
 	var h []Step
 	cur := ri(rt, 0, nSpecs-1, "s0")
-	if ri(rt, 0, 2, "startpair") == 0 {
-		cur = []int{1, 2, 4, 5}[ri(rt, 0, 3, "s0pair")]
+	if ri(rt, 0, 1, "startpair") == 0 {
+		cur = []int{1, 2, 4, 5, 6, 7}[ri(rt, 0, 5, "s0pair")]
 	}
 	h = append(h, Step{Op: "writeSpec", Spec: cur})
-	n := ri(rt, 4, 8, "steps")
+	if sib := pool[cur].Sibling; sib >= 0 && ri(rt, 0, 3, "editscenario") != 0 {
+		// the everyday scenario: generate, edit the spec minimally, generate again in place
+		h = append(h, Step{Op: "generate", Arg: []string{"inproc", "subprocess"}[ri(rt, 0, 1, "m0")] + "/dir/abs"})
+		cur = sib
+		h = append(h, Step{Op: "writeSpec", Spec: cur})
+		h = append(h, Step{Op: "generate", Arg: "inproc/" + []string{"dir", "parent", "root"}[ri(rt, 0, 2, "c0")] + "/abs"})
+	}
+	n := ri(rt, 2, 6, "steps")
 	for i := 0; i < n; i++ {
 		switch ri(rt, 0, 9, "op") {
 		case 0, 1:
@@ -442,7 +466,7 @@ func genHistory(rt *rapid.T, pool []*Spec) []Step {
 func TestC13(t *testing.T) {
 	run := ev.Start("C13")
 	defer run.Finish(t)
-	run.Rule = "a pool of order-sensitive packages (lexer specs with up to 3 modes, 8 rules per mode and overlapping ranges; grammars with up to 7 tokens, 6 rules and many generated helper rules, with and without _onBounds; a hand-written package whose actions use imported types; two sibling pairs that differ minimally - a 30-36 operator table with the levels of its last two operators swapped, a 70-120 keyword lexer with two late spellings swapped - so that regenerated files keep their length and differ only far from their beginning) and rapid-generated histories over ONE directory: writeSpec(i), generate(in-process | lox binary; cwd = the directory | its parent | / ; absolute | relative path), deleteGenerated(subset), plantForeign(generated files of spec j), touchUserFile; " +
+	run.Rule = "a pool of order-sensitive packages (lexer specs with up to 3 modes, 8 rules per mode and overlapping ranges; grammars with up to 7 tokens, 6 rules and many generated helper rules, with and without _onBounds; a hand-written package whose actions use imported types; two sibling pairs that differ minimally - a 30-36 operator table with the levels of its last two operators swapped, a 70-120 keyword lexer with two late spellings swapped, a small lexer with two token declarations swapped - so that regenerated files keep their length and differ only far from their beginning) and rapid-generated histories over ONE directory: writeSpec(i), generate(in-process | lox binary; cwd = the directory | its parent | / ; absolute | relative path), deleteGenerated(subset), plantForeign(generated files of spec j), touchUserFile; " +
 		"oracle: after every generate step the bytes of base.gen.go, lexer.gen.go, parser.gen.go and of the --report text equal those of a clean generation of the same spec in a fresh directory; in addition every import-free spec is regenerated repeatedly in-process (Go randomises map iteration per range statement, so repeats sample iteration orders) and must reproduce its bytes; " +
 		"non-trivial = history with a generate over stale files of a different spec and a change of process or working directory between generates; distinct by history"
 	run.Assumptions = []string{"touching a user file changes its mtime only", "the clean generation is in-process with cwd = the package directory"}
